@@ -238,6 +238,10 @@ def _check_fragments_generate_sinks(ctx, fi, node, it):
             acc.add(norm(st.func.value))
         if isinstance(st, ast.Assign) and isinstance(st.targets[0], ast.Subscript):
             acc.add(norm(st.targets[0].value))
+        # loop-carried rebinding `X = X | ...` / `X = X + ...` (the loader writes in-place set updates this way)
+        if isinstance(st, ast.Assign) and len(st.targets) == 1 and isinstance(st.targets[0], ast.Name) and isinstance(st.value, ast.BinOp) \
+                and any(isinstance(x, ast.Name) and x.id == st.targets[0].id for x in ast.walk(st.value)):
+            acc.add(st.targets[0].id)
     for st in ast.walk(node):
         tests = []
         if isinstance(st, (ast.If, ast.IfExp)):
